@@ -221,14 +221,11 @@ class UPSequentialSimulator(Engine, SequentialSimulatorMixin):
             an `ActionInstance` is given instead.
         :return: Whether or not the action is applicable in the given `state`.
         """
-        try:
-            _, reason = self.get_unsatisfied_conditions(
-                state, action, parameters, early_termination=True, full_check=True
-            )
-            is_applicable = reason is None
-        except (UPInvalidActionError, UPStateMissingFluentError):
-            is_applicable = False
-        return is_applicable
+        # The verdict is the one of apply: the action is applicable exactly when
+        # applying it yields a successor state (conditions, conflicting effects,
+        # undefined fluents read by effects, bounded types and state invariants
+        # are all judged there, on the complete successor).
+        return self._apply(state, action, parameters) is not None
 
     def _apply(
         self,
